@@ -158,7 +158,7 @@ func bgvEvaluatorTarget() *Target {
 			New: func(e *Env, in []interface{}, dDeg, dLvl int) interface{} {
 				d, l := degLvl(in[0])
 				if e.ScaleInvariant {
-					return e.NewCt(d+dDeg, l+dLvl) // Rescale is documented as a nop for the BFV evaluator
+					return nil // "if the evaluator has been instantiated as scale-invariant (BFV-style), then Rescale is a nop": nothing to compare
 				}
 				return e.NewCt(d+dDeg, l-1+dLvl)
 			}}, "divides op0 by the last prime and returns the result on opOut; error if opOut.Level() < op0.Level()-1"),
